@@ -326,6 +326,8 @@ def inst_ptranspose(n, S_list, sysform, dimform):
                 sys_arg = list(S_list)
             dim = list(r) if dimform == "list" else [list(r), list(c)]
             assume = [sp.Ge(R, 2), sp.Ge(C, 2)] + [sp.Ge(x, 1 if dimform == "list" else 2) for x in set(r + c)]
+            if sysform == "omitted":  # `sys` not passed, `dim` by keyword: the second subsystem is transposed
+                return [X_of((R, C))], {"dim": dim}, assume
             return [X_of((R, C)), sys_arg, dim], {}, assume
 
         Sset = set(S_list)
@@ -336,7 +338,7 @@ def inst_ptranspose(n, S_list, sysform, dimform):
         recs, ms = verify_instance("partial_transpose", label, {"partial_transpose": S.fn["partial_transpose"]}, _contracts_for("partial_transpose"), mk, lambda args, kw: IL.spec_partial_transpose(args[0], S_list, r, c), axes, atoms=list(dict.fromkeys(r + c)))
         rc = []
         for b in batteries(n):
-            rc.append(dict(clause="ptranspose.index", function="partial_transpose", input_class="partial_transpose/%s/%s" % (sysform, dimform), params=dict(sys=list(S_list), sysform=sysform, rdims=b, cdims=list(reversed(b)) if dimform == "2row" else b, dimform=dimform)))
+            rc.append(dict(clause="ptranspose.index", function="partial_transpose", input_class="partial_transpose/%s/%s" % (sysform, dimform), params=dict(sys=list(S_list), sysform="list" if sysform == "omitted" else sysform, rdims=b, cdims=list(reversed(b)) if dimform == "2row" else b, dimform=dimform, **({"sys_omitted": True} if sysform == "omitted" else {}))))
         return recs, ms, rc
 
     return label, run
@@ -472,6 +474,8 @@ def instances_C03(tier):
             for S in itertools.permutations(range(n), size):
                 if n == 4 and list(S) != sorted(S):
                     continue
+                if size == 1 and S == (1,) and n >= 2:
+                    out.append(inst_ptranspose(n, S, "omitted", "list"))  # `sys` omitted with `dim` given: the second subsystem
                 for dimform in ("list", "2row"):
                     if n == 1 and dimform == "2row":
                         continue  # ambiguous calling form, outside requires (see C03 TRUSTED)
